@@ -165,9 +165,12 @@ def header_schemas():
                 S["types"].insert(0, T("u16t", "uint16"))
             S["messages"].append(G("m0", 1, fields=[F("x", 1, "uint16")]))
             S["messages"].append(G("m1", 2, blockLength=12, fields=[F("x", 1, "uint16"), F("y", 2, "uint32")],
-                                   groups=[G("g", 10, fields=[F("a", 1, "uint32")], groups=[G("h", 11, fields=[F("b", 1, "uint8")], blockLength=3)], data=[D("gd", 12)]),
+                                   # member counts differ per kind at every level (2 groups / 1 data at the root,
+                                   # 1 group / 2 data inside g), so swapped counters are visible
+                                   groups=[G("g", 10, fields=[F("a", 1, "uint32")], groups=[G("h", 11, fields=[F("b", 1, "uint8")], blockLength=3)],
+                                             data=[D("gd", 12), D("gd2", 14, "varStr8")]),
                                            G("g2", 13, fields=[])],
-                                   data=[D("d", 20), D("d2", 21, "varStr8")]))
+                                   data=[D("d", 20)]))
             out.append(S)
     return out
 
